@@ -292,6 +292,12 @@ def correspondence(res, tier, rng):
         nst = rng.randrange(0, 5) if i % 5 else 0      # num_steps = 0: first step = last step
         rec = rng.random() < 0.7
         calls = gen_calls(rng, d, nst, dt, start, cplx=cplx)
+        if i % 7 == 3:       # exact binary64 midpoints: (0.25 - 0.0) / 0.1 == 2.5
+            dt, start, nst = 0.1, 0.0, max(nst, 3)
+            calls = gen_calls(rng, d, nst, dt, start, cplx=cplx)
+            for t_mid in (0.25, 0.05):
+                calls.append((rng.random() < 0.5, "f", t_mid, rand_superop(rng, d, "nontp", cplx)[0], "nontp"))
+            res.count("cd:exact-midpoint")
         if i % 7 == 0:       # make sure first and last step carry both sides
             for stp in (0, nst):
                 for post in (False, True):
@@ -733,16 +739,25 @@ def oracle_single(case):
                                      record_all=rec, progress_type="silent")
     lv = -1j * (np.kron(h, np.eye(d)) - np.kron(np.eye(d), h.T))
     u = expm(lv * dt)
-    land = []
+    # a float stamp (numerically) half-way between two grid points may act at either neighbour -
+    # but, like every control, exactly once: every assignment of the ties is a candidate
+    import itertools
+    options = []
     for idx, (post, kind, key, a, _x) in enumerate(calls):
         k = int(key) if kind == "i" else nearest_step(float(key), start, dt)
         if k is None:
-            return True, "tie: not judged"
-        land.append((post, k, a, kind, float(key), idx))
+            lo = int(np.floor(float((Fraction(float(key)) - Fraction(start)) / Fraction(dt))))
+            ks = [lo, lo + 1]
+        else:
+            ks = [k]
+        options.append([(post, kk, a, kind, float(key), idx) for kk in ks])
+    has_tie = any(len(o) > 1 for o in options)
+    land_variants = [list(v) for v in itertools.islice(itertools.product(*options), 16)]
+    land = land_variants[0]
 
     either = case.get("mixed") == "either"
 
-    def groups(post, k):
+    def groups(post, k, land):
         """candidate orders of the controls of one step and side.  Normally exactly one: insertion
         order, controls given by (different) float times chronologically.  With case["mixed"] ==
         "either" a group holding int- AND float-keyed controls may act float-part-first or
@@ -757,9 +772,7 @@ def oracle_single(case):
         fi = [x for x in l if x[3] == "f"]           # float part in insertion order (not judged here)
         return [[x[2] for x in o] for o in (fl + it, it + fl, fi + it, it + fi)]
 
-    import itertools
     slots = [(post, k) for k in range(n + 1) for post in (False, True)]
-    cands = [groups(post, k) for (post, k) in slots]
     if not rec:
         got = [np.array(s).reshape(-1) for s in dyn.states]
     else:
@@ -768,7 +781,10 @@ def oracle_single(case):
     if len(got) != nwant:
         return False, "number of recorded states %d, expected %d" % (len(got), nwant)
     first_bad = None
-    for choice in itertools.islice(itertools.product(*cands), 64):
+    all_choices = itertools.chain.from_iterable(
+        itertools.islice(itertools.product(*[groups(post, k, lv) for (post, k) in slots]), 64)
+        for lv in land_variants)
+    for choice in all_choices:
         order = dict(zip(slots, choice))
         v = rho.reshape(-1).astype(complex)
         want = []
@@ -789,6 +805,9 @@ def oracle_single(case):
             return True, "ok"
         if first_bad is None:
             first_bad = bad
+    if has_tie and not either:
+        return False, ("recorded state %d (t=%g): a control dated half-way between two steps does not act "
+                       "exactly once at one of the two neighbouring steps" % (first_bad, start + first_bad * dt))
     if either:
         return False, ("recorded state %d (t=%g) equals the evolution for NEITHER order of the int- and "
                        "float-keyed controls of one step: a control does not act (or acts twice)"
@@ -1130,6 +1149,18 @@ def search(res, rng=None):
                 run("Control float time outside the run must not act",
                     single_case(rng, 2, n, dt, start, [(False, "f", start + (n + by) * dt, op(), ""),
                                                        (True, "i", 0, op(), "")]))
+    # -- float stamps that are exact binary64 midpoints between two grid points: the control acts
+    #    exactly once (at one of the two neighbouring steps), with non-idempotent non-TP maps ------
+    for (dt, start, ts) in ((0.1, 0.0, (0.25, 0.45, 0.05)), (0.25, 0.5, (0.875, 1.125)),
+                            (0.5, -1.0, (-0.25, 0.25)), (0.2, 0.0, (0.1, 0.5))):
+        for t in ts:
+            assert nearest_step(t, start, dt) is None
+            for post in (False, True):
+                run("Control float time half-way between two steps acts exactly once",
+                    single_case(rng, 2, 4, dt, start, [(post, "f", t, op(), "")]))
+            run("Control float time half-way between two steps acts exactly once",
+                single_case(rng, 2, 4, dt, start, [(False, "f", t, op(), ""), (True, "f", t, op(), ""),
+                                                   (False, "f", t, op(), "")]))
     # -- identity ------------------------------------------------------------------------------
     for post in (False, True):
         base = [(False, "i", 1, op(), ""), (True, "i", 1, op(), "")]
